@@ -1020,6 +1020,7 @@ func (r *Runner) subshell(background bool) *Runner {
 		origStdout: r.origStdout, // used for process substitutions
 	}
 	r2.writeEnv = newOverlayEnviron(r.writeEnv, background)
+	verifYield("subshell-env-copied")
 	// Funcs are copied, since they might be modified.
 	r2.Funcs = maps.Clone(r.Funcs)
 	r2.Vars = make(map[string]expand.Variable)
